@@ -274,7 +274,7 @@ class Integrate:
             # Exact at both ends: start + (end - start) can pass end by rounding
             nodes = tuple((1 - node) * start + node * end for node in nodes_0to1)
             curve_vals = tuple(piece.eval(node) for node in nodes)
-            abscurve_vals = tuple(np.sqrt(val @ val) for val in curve_vals)
+            abscurve_vals = tuple(np.sqrt(float(val @ val)) for val in curve_vals)
             function_vals = tuple(function(node) for node in nodes)
             new_integral = sum(
                 map(np.prod, zip(integ_array, function_vals, abscurve_vals))
